@@ -269,6 +269,33 @@ func scenarios(thorough bool) []*scenario {
 		many.NoFaults = true
 		out = append(out, many)
 	}
+	// several paths in one run: files (and directories) that share a base name in different directories, a file named
+	// twice, a file named directly and through its directory. Whatever the tool remembers between paths must not be
+	// keyed by less than the path. Fault-free runs only.
+	multi := func(input string, files map[string]string, args []string, expectFail bool) *scenario {
+		m := fmtDirScenario(input, files, nil, expectFail)
+		m.Args = append([]string{"-w"}, args...)
+		m.NoFaults = true
+		return m
+	}
+	for _, form := range []struct {
+		name string
+		args []string
+	}{{"files", []string{"{FS}/d/p/x.bop", "{FS}/d/q/x.bop"}}, {"directories", []string{"{FS}/d/p", "{FS}/d/q"}},
+		{"file-then-directory", []string{"{FS}/d/p/x.bop", "{FS}/d/q"}}, {"directory-then-file", []string{"{FS}/d/p", "{FS}/d/q/x.bop"}}} {
+		out = append(out,
+			multi("valid/same-base-name-"+form.name, map[string]string{"p/x.bop": schemaValidRaw, "q/x.bop": schemaValidRaw2}, form.args, false),
+			multi("syntax-error/same-base-name-second-"+form.name, map[string]string{"p/x.bop": schemaValidRaw, "q/x.bop": schemaSyntax}, form.args, true),
+			multi("syntax-error/same-base-name-first-"+form.name, map[string]string{"p/x.bop": schemaSyntax2, "q/x.bop": schemaValidRaw3}, form.args, true),
+			multi("syntax-error/same-content-name-second-"+form.name, map[string]string{"p/x.bop": schemaValidRaw, "q/x.bop": schemaValidRaw + "struct"}, form.args, true),
+		)
+	}
+	out = append(out,
+		multi("valid/same-file-twice", map[string]string{"p/x.bop": schemaValidRaw}, []string{"{FS}/d/p/x.bop", "{FS}/d/p/x.bop"}, false),
+		multi("valid/file-and-its-directory", map[string]string{"p/x.bop": schemaValidRaw, "p/y.bop": schemaValidRaw2}, []string{"{FS}/d/p/x.bop", "{FS}/d/p"}, false),
+		multi("syntax-error/file-and-its-directory", map[string]string{"p/x.bop": schemaSyntax}, []string{"{FS}/d/p", "{FS}/d/p/x.bop"}, true),
+		multi("valid/three-paths", map[string]string{"p/a.bop": schemaValidRaw, "q/a.bop": schemaValidRaw2, "r/a.bop": schemaValidRaw3}, []string{"{FS}/d/r", "{FS}/d/p/a.bop", "{FS}/d/q"}, false),
+	)
 	ud := fmtDirScenario("unreadable-input/subdirectory", map[string]string{"a.bop": schemaValidRaw, "c.bop": schemaValidRaw3}, []string{"d/b.bop"}, true)
 	out = append(out, ud)
 	un := fmtDirScenario("unreadable-input/nonexistent", map[string]string{}, nil, true)
